@@ -1051,6 +1051,12 @@ impl RenderNode {
                 | Strikeout(ref v)
                 | Code(ref v)
                 | Sup(ref v) => pending.extend(v.iter()),
+                // A table is empty if all its cells are
+                Table(RenderTable { ref rows, .. }) | TableBody(ref rows) => {
+                    for cell in rows.iter().flat_map(|r| r.cells.iter()) {
+                        pending.extend(cell.content.iter());
+                    }
+                }
                 _ => {
                     if !node.is_shallow_empty() {
                         return false;
